@@ -117,8 +117,50 @@ STATEMENTS = [
 ]
 
 
+def gen_standalone_text(tag):
+    """no imports at all: every scope lookup stays inside this one module"""
+    t = tag
+    return [
+        'class Alpha_%s:' % t,
+        '    first_%s = 1' % t,
+        '',
+        '    def one_%s(self):' % t,
+        '        return "s"',
+        '',
+        'class Beta_%s:' % t,
+        '    second_%s = 1.5' % t,
+        '',
+        '    def two_%s(self):' % t,
+        '        return self.second_%s' % t,
+        '',
+        '    def three_%s(self):' % t,
+        '        return Alpha_%s()' % t,
+        '',
+        'class Gamma_%s(Alpha_%s):' % (t, t),
+        '    def four_%s(self, g_%s):' % (t, t),
+        '        inner_%s = g_%s' % (t, t),
+        '        return inner_%s' % t,
+        '',
+        'def util_%s(p_%s):' % (t, t),
+        '    loc_%s = Beta_%s()' % (t, t),
+        '    return loc_%s' % t,
+        '',
+        'a_%s = Alpha_%s()' % (t, t),
+        'a_%s.one_%s()' % (t, t),
+        'a_%s.first_%s' % (t, t),
+        'b_%s = Beta_%s()' % (t, t),
+        'b_%s.two_%s()' % (t, t),
+        'b_%s.three_%s().one_%s()' % (t, t, t),
+        'util_%s(1).second_%s' % (t, t),
+        'Gamma_%s().four_%s(1)' % (t, t),
+        '',
+    ]
+
+
 class Editor:
     """driver-side text editor producing successive full texts"""
+
+    standalone = False
 
     def __init__(self, rng, lines, mods, world_files):
         self.rng = rng
@@ -135,6 +177,8 @@ class Editor:
     def fresh_stmt(self):
         self.n += 1
         t = self.rng.choice(STATEMENTS)
+        while self.standalone and ('import' in t or '{a}' in t or '{b}' in t):
+            t = self.rng.choice(STATEMENTS)
         return t.format(n=self.n, a=self.rng.choice(self.mods), b=self.rng.choice(self.mods))
 
     def step(self):
@@ -145,6 +189,8 @@ class Editor:
         kinds = ['insert_line'] * 4 + ['delete_line'] * 3 + ['replace_line'] * 2 + ['insert_chars'] * 3 + \
             ['delete_chars'] * 3 + ['edit_yield', 'edit_yield', 'indent', 'dedent', 'paste', 'undo', 'dup_block', 'edit_sig', 'edit_sig',
                                     'move_def', 'rename_def', 'swap_lines', 'delete_block', 'append_use']
+        if self.standalone:
+            kinds = [x for x in kinds if x != 'paste'] + ['drop_header'] * 5 + ['insert_header'] * 2
         k = rng.choice(kinds)
         if not L:
             k = 'insert_line'
@@ -195,6 +241,17 @@ class Editor:
         elif k == 'delete_block':
             i = rng.randrange(len(L))
             del L[i:i + rng.randint(2, 6)]
+        elif k == 'drop_header':
+            # the header line of a class/def disappears: its body falls into the preceding scope
+            # without a single character of the body changing
+            hs = [i for i, l in enumerate(L) if re.match(r'\s*(class|def) \w+.*:\s*$', l)]
+            if hs:
+                del L[rng.choice(hs)]
+        elif k == 'insert_header':
+            blocks = [i for i, l in enumerate(L) if l.startswith('    ') and (i == 0 or not L[i - 1].startswith('    '))]
+            if blocks:
+                self.n += 1
+                L.insert(rng.choice(blocks), rng.choice(['class New_%d:', 'def new_%d():']) % self.n)
         elif k == 'edit_yield':
             # change what a generator yields somewhere in the TAIL of its body (header and first
             # statement untouched: the diff parser then keeps the funcdef node)
@@ -328,8 +385,20 @@ def gen_case(seed, tier, i):
     for b in range(nbuf):
         pathless = rng.random() < 0.35
         bufs.append({'name': 'b%d' % b, 'path': None if pathless else 'edit%d.py' % b})
-    editors = [Editor(driver.rng_for(seed, 'C08', tier, 'ed', i, b), gen_buffer_text(rng, list(w.mods), 'B%d' % b),
-                      list(w.mods), w.files) for b in range(nbuf)]
+    editors = []
+    for b in range(nbuf):
+        alone = rng.random() < 0.25
+        ed = Editor(driver.rng_for(seed, 'C08', tier, 'ed', i, b),
+                    gen_standalone_text('S%d' % b) if alone else gen_buffer_text(rng, list(w.mods), 'B%d' % b),
+                    list(w.mods), w.files)
+        ed.standalone = alone
+        if alone and nbuf > 1 and rng.random() < 0.5:
+            pass
+        editors.append(ed)
+    if any(e.standalone for e in editors) and rng.random() < 0.6:
+        # a session on ONE self-contained file: nothing else is analysed in between
+        k = [j for j, e in enumerate(editors) if e.standalone][0]
+        editors, bufs, nbuf = [editors[k]], [dict(bufs[k], path=bufs[k]['path'] or 'alone.py')], 1
     opened = None
     if rng.random() < 0.3:
         # an existing project module is opened as a buffer (by absolute or by cwd-relative path)
